@@ -117,7 +117,27 @@ type ProtoCase struct {
 }
 
 // expectedDeclOps models SetFromEnv for a custom type; it returns the Set/Clear log and whether a value was taken.
+// asserted reports whether the log is asserted at all: what happens around an environment value the type REJECTS
+// (a second Clear, trying the next variable) is implementation detail the property does not describe.
 func expectedDeclOps(name string, ct CType) (ops []string, fromEnv bool) {
+	ops, fromEnv, _ = expectedDeclOps2(name, ct)
+	return
+}
+
+func expectedDeclOps2(name string, ct CType) (ops []string, fromEnv bool, asserted bool) {
+	asserted = true
+	defer func() {
+		for _, o := range ops {
+			if ct.FailOn != "" && o == name+":Set:"+ct.FailOn {
+				asserted = false
+			}
+		}
+	}()
+	ops, fromEnv = expectedDeclOpsRaw(name, ct)
+	return
+}
+
+func expectedDeclOpsRaw(name string, ct CType) (ops []string, fromEnv bool) {
 	for _, v := range ct.Env {
 		if v == "" {
 			continue
@@ -163,19 +183,22 @@ func CheckC19(c *ProtoCase, st *Stats) *Violation {
 	d := &Decls{Args: c.D.Args}
 	// the effective declarations: flag-ness comes from the type, env-backing from the modelled declaration outcome
 	var declWant [][]string
+	var declAsserted []bool
 	names := []string{}
 	for i, o := range c.D.Opts {
 		ct := c.OptTypes[i]
 		name := fmt.Sprintf("o%d", i)
-		ops, fromEnv := expectedDeclOps(name, ct)
+		ops, fromEnv, asserted := expectedDeclOps2(name, ct)
 		declWant = append(declWant, ops)
+		declAsserted = append(declAsserted, asserted)
 		names = append(names, name)
 		d.Opts = append(d.Opts, OptDecl{Names: o.Names, Bool: ct.HasBool && ct.BoolResult, Env: fromEnv})
 	}
 	for i := range c.D.Args {
 		name := fmt.Sprintf("a%d", i)
-		ops, _ := expectedDeclOps(name, c.ArgTypes[i])
+		ops, _, asserted := expectedDeclOps2(name, c.ArgTypes[i])
 		declWant = append(declWant, ops)
+		declAsserted = append(declAsserted, asserted)
 		names = append(names, name)
 	}
 	cl := Classify(d, c.AST, c.Argv)
@@ -231,6 +254,10 @@ func CheckC19(c *ProtoCase, st *Stats) *Violation {
 	}
 	// declaration time: (Clear,) Set(environment items), as documented for SetFromEnv
 	for k, name := range names {
+		if !declAsserted[k] {
+			st.Class("declaration:env-value-rejected-by-the-type(not asserted)")
+			continue
+		}
 		if got := filterOps(declLog, name); !reflect.DeepEqual(got, declWant[k]) && !(len(got) == 0 && len(declWant[k]) == 0) {
 			return Violf("declaration of %s: the value type saw %v, the protocol requires %v; %s", name, got, declWant[k], ctx)
 		}
